@@ -15,6 +15,7 @@
 //                                            with convert_to_non_tan_beta_resummed())
 //                   O EXC <class> <what>     calculate_masses() or an evaluation threw
 //                   O PROBLEM <string>       (only if force were set; not used)
+//   osf <nfam> <nk> <mode> then nfam x (1 + nk) x 35 doubles: re-used objects, see do_osf(); same O lines
 //   END <ncases>
 #include "covsig.hpp"
 #include "gm2calc/MSSMNoFV_onshell.hpp"
@@ -291,8 +292,8 @@ static void dump_os(const MSSMNoFV_onshell& m, Out& o, bool full) {
    o.put("MB_DRbar_MZ", m.get_MB()); o.put("BMu", m.get_BMu());
 }
 
-static void os_eval(const OP& p, Out& o) {
-   MSSMNoFV_onshell m; setup_os(m, p);
+// spectrum + every quantity on a model whose inputs have been set (fresh or reused object)
+static void os_eval_model(MSSMNoFV_onshell& m, Out& o) {
    covsig::reset();
    m.calculate_masses();
    o.put("sig_lo", double(covsig::hash() & 0xffffffffull));   // branch path of the spectrum calculation (cov build)
@@ -304,6 +305,23 @@ static void os_eval(const OP& p, Out& o) {
    o.v.insert(o.v.end(), o2.v.begin(), o2.v.end());
    o.put("problem", m.get_problems().have_problem() ? 1.0 : 0.0);
    o.put("warning", m.get_problems().have_warning() ? 1.0 : 0.0);
+}
+
+static void os_eval(const OP& p, Out& o) {
+   MSSMNoFV_onshell m; setup_os(m, p);
+   os_eval_model(m, o);
+}
+
+// only the dimensionful SUSY inputs and the renormalisation scale, through the public setters
+// (what a user does who re-uses an evaluated model for another parameter point)
+static void apply_susy(MSSMNoFV_onshell& m, const OP& p) {
+   m.set_Mu(p.Mu); m.set_MassB(p.M1); m.set_MassWB(p.M2); m.set_MassG(p.M3);
+   m.set_MA0(p.MA); m.set_scale(p.Q);
+   for (int i = 0; i < 3; i++) {
+      m.set_ml2(i, i, p.ml2[i]); m.set_me2(i, i, p.me2[i]); m.set_mq2(i, i, p.mq2[i]);
+      m.set_mu2(i, i, p.mu2[i]); m.set_md2(i, i, p.md2[i]);
+      m.set_Ae(i, i, p.Ae[i]); m.set_Ad(i, i, p.Ad[i]); m.set_Au(i, i, p.Au[i]);
+   }
 }
 
 static std::string oneline(std::string s) { for (char& c : s) if (c == '\n' || c == '\r') c = ' '; return s; }
@@ -319,6 +337,43 @@ static void do_os(long n) {
       } catch (const EPhysicalProblem& e) { std::printf("O EXC EPhysicalProblem %s\n", oneline(e.what()).c_str());
       } catch (const Error& e) { std::printf("O EXC Error %s\n", oneline(e.what()).c_str());
       } catch (const std::exception& e) { std::printf("O EXC std::exception %s\n", oneline(e.what()).c_str()); }
+   }
+}
+
+template <class F> static void guarded(F f) {
+   try {
+      Out o; f(o);
+      std::printf("O OK"); o.print_values(); std::printf("\n");
+   } catch (const EInvalidInput& e) { std::printf("O EXC EInvalidInput %s\n", oneline(e.what()).c_str());
+   } catch (const EPhysicalProblem& e) { std::printf("O EXC EPhysicalProblem %s\n", oneline(e.what()).c_str());
+   } catch (const Error& e) { std::printf("O EXC Error %s\n", oneline(e.what()).c_str());
+   } catch (const std::exception& e) { std::printf("O EXC std::exception %s\n", oneline(e.what()).c_str()); }
+}
+
+// osf <nfam> <nk> <mode>: per family one base point followed by nk target points (same SM input and
+// tan(beta)).  The base model is built, calculate_masses() is called and every quantity is evaluated on it.
+// mode & 1: the *same object* is then moved through the targets one after the other (apply_susy +
+//           calculate_masses(), a chain with history): nk lines;
+// mode & 2: for every target a *copy of the evaluated base model* is moved to it: nk lines.
+// If the base point throws, all lines of the family are EXC lines.
+static void do_osf(long nfam, long nk, int mode) {
+   for (long c = 0; c < nfam; c++) {
+      std::vector<OP> ps(nk + 1);
+      for (auto& p : ps) { double* raw = reinterpret_cast<double*>(&p); for (int i = 0; i < NOP; i++) raw[i] = rd(); }
+      MSSMNoFV_onshell base; bool ok = true; std::string why;
+      try { setup_os(base, ps[0]); Out o; os_eval_model(base, o); }
+      catch (const EPhysicalProblem& e) { ok = false; why = std::string("EPhysicalProblem ") + oneline(e.what()); }
+      catch (const EInvalidInput& e) { ok = false; why = std::string("EInvalidInput ") + oneline(e.what()); }
+      catch (const std::exception& e) { ok = false; why = std::string("std::exception ") + oneline(e.what()); }
+      const int nvar = ((mode & 1) ? 1 : 0) + ((mode & 2) ? 1 : 0);
+      if (!ok) { for (long k = 0; k < nk * nvar; k++) std::printf("O EXC base:%s\n", why.c_str()); continue; }
+      const MSSMNoFV_onshell evaluated(base);
+      if (mode & 1) {
+         for (long k = 1; k <= nk; k++) guarded([&](Out& o) { apply_susy(base, ps[k]); os_eval_model(base, o); });
+      }
+      if (mode & 2) {
+         for (long k = 1; k <= nk; k++) guarded([&](Out& o) { MSSMNoFV_onshell m(evaluated); apply_susy(m, ps[k]); os_eval_model(m, o); });
+      }
    }
 }
 
@@ -347,6 +402,7 @@ int main() {
       else if (cmd == "tree") { std::cin >> n; do_tree(n); }
       else if (cmd == "tsig") { std::cin >> n; do_tsig(n); }
       else if (cmd == "os") { std::cin >> n; do_os(n); }
+      else if (cmd == "osf") { long nk; int mode; std::cin >> n >> nk >> mode; do_osf(n, nk, mode); }
       else { std::printf("ERR cmd %s\n", cmd.c_str()); return 2; }
       std::printf("END %ld\n", n); std::fflush(stdout);
    }
